@@ -1166,3 +1166,38 @@ func knownNonNil(v ssa.Value) bool {
 	}
 	return false
 }
+
+// AtomicCall decodes a call of package sync/atomic on a memory word, in either style: the functions
+// (atomic.CompareAndSwapInt32(&x.f, 1, 0)) or the methods of the typed values (x.f.CompareAndSwap(1, 0) for an
+// atomic.Int32 field). op is "Load", "Store", "Add", "Swap", "CompareAndSwap", "And" or "Or"; addr is the address of the
+// word (for the typed values: the address of the atomic.IntNN field), args are the remaining arguments.
+func AtomicCall(in ssa.Instruction) (op string, addr ssa.Value, args []ssa.Value, ok bool) {
+	call, isCall := in.(ssa.CallInstruction)
+	if !isCall {
+		return "", nil, nil, false
+	}
+	name := CalleeFullName(call)
+	cc := call.Common()
+	ops := []string{"CompareAndSwap", "Load", "Store", "Add", "Swap", "And", "Or"}
+	switch {
+	case strings.HasPrefix(name, "sync/atomic."):
+		rest := strings.TrimPrefix(name, "sync/atomic.")
+		for _, o := range ops {
+			if strings.HasPrefix(rest, o) && len(cc.Args) >= 1 {
+				return o, cc.Args[0], cc.Args[1:], true
+			}
+		}
+	case strings.HasPrefix(name, "(*sync/atomic."):
+		i := strings.Index(name, ").")
+		if i < 0 || strings.HasPrefix(name, "(*sync/atomic.Value)") {
+			return "", nil, nil, false
+		}
+		rest := name[i+2:]
+		for _, o := range ops {
+			if rest == o && len(cc.Args) >= 1 {
+				return o, cc.Args[0], cc.Args[1:], true
+			}
+		}
+	}
+	return "", nil, nil, false
+}
